@@ -276,8 +276,15 @@ class DynWorld(World):
             op.update(cm=float(np.round(rng.uniform(0, 1.0), 3)), ck=float(np.round(rng.uniform(0, 0.1), 4)))
         elif name == "set_state":
             op.update(aseed=int(rng.integers(1 << 30)), scale=float(np.round(10 ** rng.uniform(-3, 0), 4)))
+            if rng.random() < 0.15:
+                # the same problem in other units (SI ultrasonics, MEMS): nothing in a linear scheme may depend on the
+                # absolute magnitude of the state
+                op["scale"] = float(f"{10 ** rng.uniform(-16, -9):.4e}")
         elif name == "load":
             op.update(d=float(np.round(rng.uniform(-0.1, 0.1), 4)) if rng.random() < 0.6 else 0.0, f=float(np.round(rng.uniform(-5, 5), 3)) if rng.random() < 0.6 else 0.0)
+            if rng.random() < 0.15:
+                k = float(f"{10 ** rng.uniform(-16, -10):.3e}")
+                op.update(d=op["d"] * k, f=op["f"] * k)
         elif name == "set_iter":
             op["i"] = int(rng.integers(len(self.iters)))
         elif name == "free":
